@@ -231,6 +231,10 @@ def _draw_row(draw, case, api, as_header):
                 kinds = [k for k in kinds if k not in ("long", "longblank")]
             kind = draw(st.sampled_from(kinds))
         row.append(_draw_cell(draw, field, kind, fmt, case["allowed"]))
+    if as_header and fmt == "delimited" and row and draw(st.integers(0, 2)) == 0:
+        # a caption over several lines: still one row
+        column = draw(st.integers(0, len(row) - 1))
+        row[column] = row[column] + draw(st.sampled_from(["\n", "\r\n", "\nsecond line", "\n\n"]))
     ragged_ok = (fmt == "delimited") if api != "writer" else (not as_header or fmt == "delimited")
     if ragged_ok and draw(st.integers(0, 9)) == 0:
         if n >= 2 and draw(st.booleans()):
